@@ -78,8 +78,21 @@ impl<B: Backend> CnvPVecR<DeviceBuf<B>, B> {
     }
 }
 
-impl<D: Data, B: Backend> CnvPVecR<D, B> {
+impl<D: DataRef, B: Backend> CnvPVecR<D, B> {
+    /// Constructs a `CnvPVecR` from raw parts.
+    ///
+    /// # Panics
+    ///
+    /// Panics if the buffer holds fewer than `n * cols * size` scalars or is not aligned for the scalar type.
     pub fn from_data(data: D, n: usize, cols: usize, size: usize) -> Self {
+        super::znx_base::assert_from_data_fits(
+            "CnvPVecR",
+            data.as_ref(),
+            n,
+            cols.checked_mul(size),
+            size_of::<B::ScalarPrep>(),
+            align_of::<B::ScalarPrep>(),
+        );
         Self {
             data,
             n,
@@ -166,8 +179,21 @@ impl<B: Backend> CnvPVecL<DeviceBuf<B>, B> {
     }
 }
 
-impl<D: Data, B: Backend> CnvPVecL<D, B> {
+impl<D: DataRef, B: Backend> CnvPVecL<D, B> {
+    /// Constructs a `CnvPVecL` from raw parts.
+    ///
+    /// # Panics
+    ///
+    /// Panics if the buffer holds fewer than `n * cols * size` scalars or is not aligned for the scalar type.
     pub fn from_data(data: D, n: usize, cols: usize, size: usize) -> Self {
+        super::znx_base::assert_from_data_fits(
+            "CnvPVecL",
+            data.as_ref(),
+            n,
+            cols.checked_mul(size),
+            size_of::<B::ScalarPrep>(),
+            align_of::<B::ScalarPrep>(),
+        );
         Self {
             data,
             n,
